@@ -238,14 +238,6 @@ func (in *inliner) expand(h *core.Fn, call *ast.CallExpr, lhs []ast.Expr, tok to
 	body := in.block(h.Decl.Body, depth-1, ex)
 	delete(in.stack, h.Decl.Body)
 	list := append(in.prelude(h, call), body.List...)
-	// falling off the end of a helper with named results assigns them as well
-	if len(ex.named) > 0 && len(lhs) == len(ex.named) {
-		var rhs []ast.Expr
-		for _, n := range ex.named {
-			rhs = append(rhs, n)
-		}
-		list = append(list, &ast.AssignStmt{Lhs: lhs, TokPos: call.End(), Tok: tok, Rhs: rhs})
-	}
 	list = append(list, &ast.LabeledStmt{Label: label, Colon: call.End(), Stmt: &ast.EmptyStmt{Semicolon: call.End(), Implicit: true}})
 	return &ast.BlockStmt{Lbrace: call.Pos(), List: list, Rbrace: call.End()}
 }
